@@ -70,12 +70,13 @@ EXPECTED_PROBES = {
             'inf_of_both_signs_in_one_file', 'alf_label_in_names', 'raw_cbin', 'raw_npy',
             'loaded_under_second_listing_order', 'both_names_of_a_family_present',
             'unreadable_attribute_file', 'traces_read', 'params_name_a_missing_raw_file',
+            'traces_read_with_channel_selector',
             'alf_times_without_samples'],
     'C05': ['sparse', 'dense', 'neighbourhood_bites', 'multi_shank', 'threshold_bites',
             'explicit_channels', 'minus_one_column', 'signal_free_column', 'all_zero_template',
             'queried_after_reload', 'wmi_file_left_by_earlier_load'],
     'C06': ['row_table', 'unknown_channel', 'empty_spike_list', 'waveform_route', 'tf_row_table',
-            'unsorted_spikes'],
+            'unsorted_spikes', 'same_table_densified_twice'],
     'C08': ['multi_template_cluster', 'empty_id', 'undo', 'dirty_reload', 'highest_template_unused',
             'single_spike_cluster', 'tie_in_spike_counts'],
     'C09': ['empty_highest_id', 'curated', 'depths', 'zero_positive_part', 'batch_boundary_size'],
@@ -681,10 +682,21 @@ class DatasetWorld(object):
         else:
             idx = np.unique(rs.randint(0, n, size=5))
             item, exp = idx, A[idx]
-        got = ctx.real('traces[]', lambda: m.traces[item], owners=('C04',))
+        cols = None
+        if rs.rand() < 0.35:
+            # a read with a channel selector; later plain reads must not be affected by it
+            nch = A.shape[1]
+            cols = [int(c) for c in rs.permutation(nch)[:rs.randint(1, nch + 1)]]
+            exp = exp[:, cols]
+            ctx.probe('traces_read_with_channel_selector')
+        if cols is None:
+            got = ctx.real('traces[]', lambda: m.traces[item], owners=('C04',))
+        else:
+            got = ctx.real('traces[]', lambda: m.traces[item, cols], owners=('C04',))
         ctx.probe('traces_read')
         ctx.check(_aeq(got, exp) and got.dtype == exp.dtype, 'attr-traces-rows',
-                  lambda: {'item': str(item), 'got': _desc(got), 'expected': _desc(exp)})
+                  lambda: {'item': str(item), 'cols': cols, 'got': _desc(got),
+                           'expected': _desc(exp)})
 
     def load_again(self):
         """A second load of the same directory creates nothing and changes nothing."""
@@ -980,16 +992,28 @@ class DatasetWorld(object):
             np.zeros((0, nloc), dtype=np.int64)
         cols = cols.astype(rs.choice(['int64', 'int32', 'uint32']))
         req = rs.permutation(nch + 4)[:rs.randint(1, nch + 1)]
+        def expected(req_):
+            exp_ = np.zeros((n, len(req_)) + extra)
+            for i in range(n):
+                for j in range(nloc):
+                    for b, c in enumerate(req_):
+                        if int(cols0[i, j]) == int(c):
+                            exp_[i, b] = data0[i, j]
+            return exp_
+        data0, cols0 = data.copy(), cols.copy()
+        # the SAME data / column-table objects are densified twice: first for a subset of the
+        # channels, then for the full request (a caller keeps its table between requests)
+        first = req[:max(1, len(req) // 2)]
+        got1 = ctx.real('from_sparse', from_sparse, data, cols, first, owners=('C06',))
         got = ctx.real('from_sparse', from_sparse, data, cols, req, owners=('C06',))
         ctx.op('q_from_sparse', changes_state=False)
-        exp = np.zeros((n, len(req)) + extra)
-        for i in range(n):
-            for j in range(nloc):
-                for b, c in enumerate(req):
-                    if int(cols[i, j]) == int(c):
-                        exp[i, b] = data[i, j]
+        ctx.probe('same_table_densified_twice')
+        ctx.check(_aeq(got1, expected(first)), 'from-sparse-values',
+                  lambda: {'request': 'first', 'got': _desc(got1)})
+        exp = expected(req)
         ctx.check(_aeq(got, exp), 'from-sparse-values',
-                  lambda: {'got': _desc(got), 'expected': _desc(exp)})
+                  lambda: {'request': 'second (same table object)', 'got': _desc(got),
+                           'expected': _desc(exp), 'cols_dtype': str(cols.dtype)})
 
     def q_features_wf(self, op):
         """Waveform route: no feature file, but extracted spike waveforms exist."""
